@@ -58,8 +58,25 @@ def o_info(inp):
     if any(t not in tk.dictionary for t in toks):
         return [("~skip:not-vocabulary", "")]
     fails = []
+    if inp.get("earlier"):
+        # the same tokeniser annotated earlier streams, and the caller REUSES ITS LIST OBJECT: it is rewritten in place to the stream
+        # under test (resampling during generation does exactly this); the earlier streams are part of the replayable input
+        buf = []
+        for e in inp["earlier"]:
+            e = [t for t in e if t in tk.dictionary]
+            buf[:len(e)] = e
+            del buf[len(e):]
+            try:
+                tk.get_info(buf, flag_impute_values=inp["impute"])
+            except Exception:
+                pass
+        buf[:len(toks)] = toks
+        del buf[len(toks):]
+        toks_arg = buf
+    else:
+        toks_arg = toks
     try:
-        info = tk.get_info(toks, flag_impute_values=inp["impute"])
+        info = tk.get_info(toks_arg, flag_impute_values=inp["impute"])
     except Exception as e:
         return [("raises", f"get_info: {type(e).__name__}: {e}")]
     names = ["info_position", "info_time", "info_time_bar", "info_pitch", "info_circle_of_fifths"]
@@ -115,6 +132,9 @@ def generate(ctx):
         if rng.random() < 0.3:
             kw["ppqn"] = rng.choice([12, 48, 96, 6])      # a tokeniser built for another resolution
             ctx.count("ppqn:non-default")
+        if rng.random() < 0.2:
+            kw["note_values"] = rng.choice([[24, 48, 96, 144, 192], [12, 100, 7]])      # fields wider than their zero padding
+            ctx.count("values:three-digit")
         cfg = P.TkCfg(**kw)
         tk = cfg.tk()
         keys = list(tk.dictionary.keys())
@@ -152,6 +172,15 @@ def generate(ctx):
         ctx.case((sorted(kw.items()), toks, impute), nontriv)
         ctx.count("from-tokenise" if from_tok else "random-stream")
         ctx.check("info", {"cfg": kw, "toks": toks, "impute": impute, "from_tokenise": from_tok})
+        if i % 3 == 0 and len(toks) >= 3:
+            # the caller's list object was annotated before with other content and rewritten in place
+            vocab_note = [t for t in toks if "pit" in t] or toks
+            e1 = list(toks)
+            for _ in range(rng.randint(1, 3)):
+                e1[rng.randrange(len(e1))] = rng.choice(toks)
+            earlier = [e1] + ([toks[:rng.randint(1, len(toks))]] if rng.random() < 0.5 else [])
+            ctx.count("list-object-annotated-before")
+            ctx.check("info", {"cfg": kw, "toks": toks, "impute": impute, "from_tokenise": from_tok, "earlier": earlier})
         ctx.corr("info", P.op_info(cfg, impute, toks))
         ctx.corr("detokenise", P.op_detokenise(cfg, toks))
         ctx.sample({"cfg": {k: str(v) for k, v in kw.items()}, "toks": toks[:12], "impute": impute})
